@@ -109,6 +109,13 @@ Definition swaps_root (e : event) : bool := match e with EMergeStart _ _ => fals
 Definition file_segs (r : list seg) : list Z := map sid (filter sfile r).
 Definition inflight_news (s : st) : list Z := flat_map (fun m => map t_new (m_tasks m)) (inflight s).
 
+(* copyScheduled is a counter per file name: ending one copy releases one reference *)
+Fixpoint remove_one (x : Z) (l : list Z) : list Z :=
+  match l with
+  | [] => []
+  | y :: l' => if y =? x then l' else y :: remove_one x l'
+  end.
+
 Definition dstep (d : dstate) (ev : devent) : option dstate :=
   match ev with
   | DCore e =>
@@ -128,7 +135,9 @@ Definition dstep (d : dstate) (ev : devent) : option dstate :=
           else None
       end
   | DFileWritten sid =>
-      if negb (d_up d) then None else
+      (* only a segment id that has been allocated (a root segment being persisted, or the output
+         of an in-flight merge) is ever written: fresh ids are never on disk beforehand (I6) *)
+      if negb (d_up d) || negb (mem_id sid (used_sids (d_core d))) then None else
       Some (mkD (d_core d) (d_pub d) (d_nb d) (d_batches d) (d_segdocs d) (d_bolt d) (d_tx d)
                 (if mem_id sid (d_files d) then d_files d else sid :: d_files d) (d_copy d) (d_acked d) true)
   | DPrepare r =>
@@ -137,7 +146,10 @@ Definition dstep (d : dstate) (ev : devent) : option dstate :=
       | None, Some (proot, pint), Some rr =>
           (* the bucket must describe exactly the contents of the root published at that epoch
              (for the in-memory-merge path this is the "equiv" snapshot) *)
+          (* ... and it is a snapshot of this life of the process (not a stale epoch left over from
+             before a crash), naming each segment once *)
           if same_contents rr proot && pairs_eqb (canon (br_int r)) (canon pint)
+             && (br_epoch r <=? epoch (d_core d)) && nodupZ (named_by r)
           then Some (mkD (d_core d) (d_pub d) (d_nb d) (d_batches d) (d_segdocs d) (d_bolt d) (Some r)
                          (d_files d) (d_copy d) (d_acked d) true)
           else None
@@ -191,7 +203,7 @@ Definition dstep (d : dstate) (ev : devent) : option dstate :=
   | DCopyEnd sids =>
       if negb (d_up d) then None else
       Some (mkD (d_core d) (d_pub d) (d_nb d) (d_batches d) (d_segdocs d) (d_bolt d) (d_tx d)
-                (d_files d) (fold_left (fun acc x => remove Z.eq_dec x acc) sids (d_copy d))
+                (d_files d) (fold_left (fun acc x => remove_one x acc) sids (d_copy d))
                 (d_acked d) true)
   | DCrash =>
       (* volatile state is gone: root, in-flight merges, the open transaction *)
